@@ -42,6 +42,7 @@ type supplyMonitor struct {
 	tbrBefore      math.Int
 	feeDistrBefore math.Int
 	depositExpect  map[int]*big.Int // tx index -> expected minted loya if the claim is accepted
+	depositMinted  map[uint64]int64 // deposit id -> height of the accepted claim that minted it
 	// history-wide
 	modulesOK  map[string]bool
 	mintBlocks int
@@ -195,6 +196,16 @@ func (m *supplyMonitor) After(c *Chain, w *World, br *BlockResult, outs []TxOutc
 			pure = false
 		case *bridgetypes.MsgClaimDepositsRequest:
 			pure = false
+			// a deposit adds its reported amount to the supply once
+			if m.depositMinted == nil {
+				m.depositMinted = map[uint64]int64{}
+			}
+			for _, id := range msg.DepositIds {
+				if at, ok := m.depositMinted[id]; ok {
+					return pbt.Violf("C03/deposit-minted-twice", "block %d: an accepted claim mints deposit %d again (first minted by the claim accepted in block %d)", br.Height, id, at)
+				}
+				m.depositMinted[id] = br.Height
+			}
 			if e, ok := m.depositExpect[i]; ok {
 				expected.Add(expected, e)
 			} else {
